@@ -99,6 +99,10 @@ type Broker struct {
 	// ReuseIDs makes Publish pick the lowest free packet identifier instead
 	// of counting on.
 	ReuseIDs bool
+	// IDBase is where the identifiers for messages towards the client start
+	// (0 means 1): a broker chooses them freely, also inside the ranges the
+	// client uses for its own publishes.
+	IDBase uint16
 	// HoldPubrel withholds the PUBREL that answers a PUBREC; it goes out with the
 	// retransmission on the next connection.
 	HoldPubrel bool
@@ -372,13 +376,16 @@ func (b *Broker) publish(topic string, payload []byte, qos byte, retain bool, id
 	if qos != 0 {
 		if id == 0 {
 			if b.ReuseIDs {
-				b.State.NextID = 1
+				b.State.NextID = max(b.IDBase, 1)
 			}
 			for {
 				id = b.State.NextID
 				b.State.NextID++
 				if b.State.NextID == 0 {
 					b.State.NextID = 1
+				}
+				if id == 0 {
+					continue
 				}
 				used := false
 				for _, o := range b.State.Out {
